@@ -18,7 +18,7 @@ first deme is built (and before any other draw) whenever a seed is present, and 
 from anything but random_seed; (R14.4) both deme-construction sites forward the tree's random seed; (R14.5) entropy / clock /
 identity sources (uuid, time, datetime, id, hash, os.urandom) occur only at tabled sites and the fields they define are read
 nowhere that influences the search; (R14.6) nothing iterates over, or takes an order from, a set / frozenset (hash-order
-dependence); (R14.7) no random state is created or drawn from at import time or in default arguments. (R14.8) nothing a run stores outlives the run: no memoised generator factory, no accumulating container or latched verdict in configuration-held objects, no class-body / module-level container written through an instance, no evaluation count that depends on the wrapped problem's state. (R14.5) is a taint analysis: inside the functions a run can reach, clock / entropy values are only stored, logged or counted."""
+dependence); (R14.7) no random state is created or drawn from at import time or in default arguments. (R14.8) nothing a run stores outlives the run: no memoised generator factory, no accumulating container or latched verdict in configuration-held objects, no class-body / module-level container written through an instance, no evaluation count that depends on the wrapped problem's state. (R14.5) is a taint analysis: inside the functions a run can reach, clock / entropy values are only stored, logged or counted. Round 5: (R14.6) also follows a set assigned to a local that reaches an iteration on some path."""
 NOTE = """Determinism inside numpy, scipy.stats, scipy.stats.qmc and cma given their seeds is an external summary. Hash-order
 independence of third-party code is not analysed."""
 TECHNIQUE = "who-may-call classification of every RNG/entropy/clock call site (resolved callees) + seed-provenance dataflow + dominance typestate in the constructor"
